@@ -6,11 +6,11 @@ namespace ImathVerif.Gen
 open ImathVerif
 
 /-- extracted from the C++ template at T = Sym; 1 path(s) -/
-def Sphere3.circumscribe {α : Type} [Add α] [Sub α] [Mul α] [Div α] [Neg α] [LT α] [LE α] [DecidableLT α] [DecidableLE α] [DecidableEq α] [OfNat α 0] [OfNat α 1] [OfNat α 2] (tmin : α) (sqrt : α → α) (b : Box3 α) : (Sphere3 α) :=
+def Sphere3.circumscribe {α : Type} [Add α] [Sub α] [Mul α] [Div α] [Neg α] [LT α] [LE α] [DecidableLT α] [DecidableLE α] [DecidableEq α] [OfNat α 0] [OfNat α 1] [OfNat α 2] (tmin : α) (tmax : α) (sqrt : α → α) (b : Box3 α) : (Sphere3 α) :=
   let t859 := (((1 : α) / (2 : α)) * (b.min.z + b.max.z))
   let t860 := (((1 : α) / (2 : α)) * (b.min.y + b.max.y))
   let t861 := (((1 : α) / (2 : α)) * (b.min.x + b.max.x))
-  ⟨⟨t861, t860, t859⟩, (V3.length tmin sqrt ⟨(b.max.x - t861), (b.max.y - t860), (b.max.z - t859)⟩)⟩
+  ⟨⟨t861, t860, t859⟩, (V3.length tmin tmax sqrt ⟨(b.max.x - t861), (b.max.y - t860), (b.max.z - t859)⟩)⟩
 
 /-- extracted from the C++ template at T = Sym; 4 path(s) -/
 def Sphere3.intersectT {α : Type} [Add α] [Sub α] [Mul α] [Div α] [Neg α] [LT α] [DecidableLT α] [OfNat α 0] [OfNat α 1] [OfNat α 2] [OfNat α 4] (sqrt : α → α) (s : Sphere3 α) (l : Line3 α) : (Bool × α) :=
